@@ -38,6 +38,24 @@ pub fn gen_param_value(g: &mut G<'_>, t: u8) -> PVal {
         }
         T_FLOAT => PVal::F32(if g.chance(1, 10) { *g.pick(&[0x7f80_0000u32, 0xff80_0000]) } else { gen_f32_bits(g) }),
         T_DOUBLE => PVal::F64(if g.chance(1, 10) { *g.pick(&[0x7ff0_0000_0000_0000u64, 0xfff0_0000_0000_0000]) } else { gen_f64_bits(g) }),
+        T_DATE | T_DATETIME | T_TIMESTAMP if g.chance(1, 12) => {
+            // the zero date and dates with a zero month or day, written out in full (MySQL knows
+            // them; they are no calendar dates, so only the raw value is compared)
+            let (y, m, _) = gen_date(g);
+            let (h, mi, s) = gen_hms(g);
+            let (y, m, d) = match g.below(3) {
+                0 => (0, 0, 0),
+                1 => (y, 0, 0),
+                _ => (y, m, 0),
+            };
+            let t_zero = g.coin();
+            let forms: &[u8] = if t == T_DATE { &[4] } else { &[4, 7, 11] };
+            match *g.pick(forms) {
+                4 => PVal::Date(y as u16, m as u8, d as u8, 0, 0, 0, 0, 4),
+                7 => if t_zero { PVal::Date(y as u16, m as u8, d as u8, 0, 0, 0, 0, 7) } else { PVal::Date(y as u16, m as u8, d as u8, h as u8, mi as u8, s as u8, 0, 7) },
+                _ => if t_zero { PVal::Date(y as u16, m as u8, d as u8, 0, 0, 0, 0, 11) } else { PVal::Date(y as u16, m as u8, d as u8, h as u8, mi as u8, s as u8, gen_micros(g), 11) },
+            }
+        }
         T_DATE => {
             let (y, m, d) = gen_date(g);
             let form = *g.pick(&[4u8, 4, 4, 0]);
@@ -75,7 +93,20 @@ pub fn gen_param_value(g: &mut G<'_>, t: u8) -> PVal {
         T_NULL => PVal::TypeNull,
         _ => {
             let huge = g.chance(1, 200);
-            PVal::Bytes(gen_bytes(g, huge))
+            let b = gen_bytes(g, huge);
+            // one byte string in ten carries a longer length prefix than its length needs
+            if g.chance(1, 10) {
+                let first = *g.pick(&[0xfcu8, 0xfd, 0xfe]);
+                let fits = match first {
+                    0xfc => b.len() < 1 << 16,
+                    0xfd => b.len() < 1 << 24,
+                    _ => true,
+                };
+                if fits {
+                    return PVal::BytesWide(b, first);
+                }
+            }
+            PVal::Bytes(b)
         }
     }
 }
@@ -158,7 +189,7 @@ pub fn expected_seen(p: &Param, long_data: Option<&[u8]>) -> (u8, Inner, Option<
             (p.coltype, Inner::Double((f as f64).to_bits()), if f.is_nan() { None } else { Some(Conv::F32(*b)) }, None)
         }
         PVal::F64(b) => (p.coltype, Inner::Double(*b), if f64::from_bits(*b).is_nan() { None } else { Some(Conv::F64(*b)) }, None),
-        PVal::Bytes(b) => (p.coltype, Inner::Bytes(b.clone()), Some(Conv::Bytes(b.clone())), std::str::from_utf8(b).ok().map(|s| s.to_string())),
+        PVal::Bytes(b) | PVal::BytesWide(b, _) => (p.coltype, Inner::Bytes(b.clone()), Some(Conv::Bytes(b.clone())), std::str::from_utf8(b).ok().map(|s| s.to_string())),
         PVal::Date(y, m, d, h, mi, s, us, form) => {
             let raw = temporal_bytes(p);
             if p.coltype == T_DATE {
